@@ -236,6 +236,12 @@ __wrap_flock(int vfd, int op)
     return r;
 }
 
+static bool
+all_zero(const uint8_t* p, size_t n)
+{
+    return n == 0 || (p[0] == 0 && memcmp(p, p + 1, n - 1) == 0);
+}
+
 extern "C" ssize_t
 __wrap_pwrite(int vfd, const void* buf, size_t n, off_t off)
 {
@@ -269,6 +275,16 @@ __wrap_pwrite(int vfd, const void* buf, size_t n, off_t off)
             e = EBADF;
         } else if (m == 0) {
             r = 0;
+        } else if (m >= (1u << 20) && all_zero((const uint8_t*)buf, m)) {
+            // a large block of zero bytes (the multi-GiB frames of the large-file case): same file contents without the
+            // disk traffic - extend the file if needed and punch a hole over the range (a hole reads back as zeros)
+            struct stat sb;
+            if (fstat(g_vfd[vfd], &sb) == 0 && (sb.st_size >= off + (off_t)m || ftruncate(g_vfd[vfd], off + (off_t)m) == 0) &&
+                fallocate(g_vfd[vfd], FALLOC_FL_PUNCH_HOLE | FALLOC_FL_KEEP_SIZE, off, (off_t)m) == 0)
+                r = (ssize_t)m;
+            else
+                r = __real_pwrite(g_vfd[vfd], buf, m, off);
+            e = errno;
         } else {
             r = __real_pwrite(g_vfd[vfd], buf, m, off);
             e = errno;
@@ -339,6 +355,7 @@ struct Dev
     struct Storage* s = 0;
     int pid = -1;        // path configured by the last accepted set
     bool started = false; // a start returned Running and the file was not read back yet
+    int run_pid = -1;     // the path that was configured when that start was made (a set while running changes pid, not the open file)
 };
 
 struct Case
@@ -403,16 +420,16 @@ split(const std::string& s, char c)
 static void
 read_back(int slot, Dev& d, size_t unit)
 {
-    if (d.kind != "raw" || !d.started || d.pid < 0)
+    if (d.kind != "raw" || !d.started || d.run_pid < 0)
         return;
     d.started = false;
     std::string p;
     for (auto& kv : g_paths)
-        if (kv.second == d.pid)
+        if (kv.second == d.run_pid)
             p = kv.first;
     FILE* f = fopen(p.c_str(), "rb");
     if (!f) {
-        emit("{\"e\":\"FileRead\",\"d\":%d,\"path\":%d,\"exists\":false,\"size\":0,\"cells\":[]}", slot, d.pid);
+        emit("{\"e\":\"FileRead\",\"d\":%d,\"path\":%d,\"exists\":false,\"size\":0,\"cells\":[]}", slot, d.run_pid);
         return;
     }
     std::vector<uint8_t> b;
@@ -422,7 +439,7 @@ read_back(int slot, Dev& d, size_t unit)
         b.insert(b.end(), t, t + n);
     fclose(f);
     std::string c = unit ? cells_json(b.data(), b.size(), unit) : std::string("[]");
-    emit("{\"e\":\"FileRead\",\"d\":%d,\"path\":%d,\"exists\":true,\"size\":%zu,\"cells\":%s}", slot, d.pid, b.size(), c.c_str());
+    emit("{\"e\":\"FileRead\",\"d\":%d,\"path\":%d,\"exists\":true,\"size\":%zu,\"cells\":%s}", slot, d.run_pid, b.size(), c.c_str());
 }
 
 static void
@@ -528,7 +545,7 @@ run_case_child(const Case& c)
             g_cur = -1;
             int st = storage_get_state(d.s);
             emit("{\"e\":\"Ret\",\"d\":%d,\"op\":\"set\",\"rc\":%d,\"st\":%d}", slot, rc, st);
-            if (st == DeviceState_Armed)
+            if (rc == Device_Ok) // accepted (a running device stays Running)
                 d.pid = pid;
             storage_properties_destroy(&props);
         } else if (name == "start") {
@@ -540,13 +557,40 @@ run_case_child(const Case& c)
             emit("{\"e\":\"Ret\",\"d\":%d,\"op\":\"start\",\"rc\":%d,\"st\":%d}", slot, rc, st);
             if (st == DeviceState_Running) {
                 d.started = true;
+                d.run_pid = d.pid;
                 ++acq[slot];
             }
         } else if (name == "append") {
             std::vector<uint8_t> pkt;
             std::string fj = "[";
+            // a frame token with a ninth field `z` is a single-frame packet whose pixel bytes are all zero, taken from
+            // untouched calloc memory (frames of more than a GiB for the large-file case)
+            uint8_t* zpkt = 0;
+            size_t znb = 0;
             for (size_t i = 2; i < op.size(); ++i) {
                 auto f = split(op[i], ',');
+                if (f.size() >= 9 && f[8] == "z" && op.size() == 3) {
+                    const uint32_t w = atoi(f[0].c_str()), h = atoi(f[1].c_str());
+                    const int ty = sample_type(f[2]);
+                    znb = sizeof(struct VideoFrame) + (size_t)w * h * bpp_of(ty) + atoi(f[3].c_str());
+                    zpkt = (uint8_t*)calloc(1, znb);
+                    if (!zpkt)
+                        _exit(96);
+                    struct VideoFrame* hdr = (struct VideoFrame*)zpkt;
+                    hdr->bytes_of_frame = znb;
+                    hdr->shape.dims = { 1, w, h, 1 };
+                    hdr->shape.strides = { 1, 1, (int64_t)w, (int64_t)w * h };
+                    hdr->shape.type = (enum SampleType)ty;
+                    hdr->frame_id = strtoull(f[4].c_str(), 0, 10);
+                    hdr->hardware_frame_id = strtoull(f[5].c_str(), 0, 10);
+                    hdr->timestamps.acq_thread = strtoull(f[6].c_str(), 0, 10);
+                    hdr->timestamps.hardware = strtoull(f[7].c_str(), 0, 10);
+                    char t[160];
+                    snprintf(t, sizeof t, "{\"w\":%u,\"h\":%u,\"ty\":\"%s\",\"nb\":0,\"id\":%llu,\"z\":true}", w, h, f[2].c_str(),
+                             (unsigned long long)hdr->frame_id);
+                    fj += t;
+                    break;
+                }
                 const uint32_t w = atoi(f[0].c_str()), h = atoi(f[1].c_str());
                 const int ty = sample_type(f[2]);
                 const size_t pad = atoi(f[3].c_str());
@@ -578,8 +622,10 @@ run_case_child(const Case& c)
             emit("{\"e\":\"Call\",\"d\":%d,\"op\":\"append\",\"nb\":%zu,\"frames\":%s,\"cells\":%s}", slot, pkt.size(), fj.c_str(),
                  cells.c_str());
             g_cur = slot;
-            int rc = storage_append(d.s, (struct VideoFrame*)pkt.data(), (struct VideoFrame*)(pkt.data() + pkt.size()));
+            int rc = zpkt ? storage_append(d.s, (struct VideoFrame*)zpkt, (struct VideoFrame*)(zpkt + znb))
+                          : storage_append(d.s, (struct VideoFrame*)pkt.data(), (struct VideoFrame*)(pkt.data() + pkt.size()));
             g_cur = -1;
+            free(zpkt);
             emit("{\"e\":\"Ret\",\"d\":%d,\"op\":\"append\",\"rc\":%d,\"st\":%d}", slot, rc, (int)storage_get_state(d.s));
         } else if (name == "stop") {
             emit("{\"e\":\"Call\",\"d\":%d,\"op\":\"stop\"}", slot);
